@@ -103,6 +103,11 @@ Definition C06_vtk_same_stmt : Prop :=
   forall m, fst (vtk_of table_fm m) = map v_pos (f_vertices (ast_of table_fm m))
             /\ snd (vtk_of table_fm m) = map b_vids (f_blocks (ast_of table_fm m)).
 
+(** the vertex lookup of the model (with its integer-cell shortcut) is the plain search for the first
+    vertex closer than TOL with the same set of slave patches (VertexList.find_duplicated) *)
+Definition C06_vertex_lookup_stmt : Prop :=
+  forall vs p sl i, keys_ok vs -> find_vtx vs p (key_pt p) sl i = find_vtx_spec vs p sl i.
+
 (** ** proofs *)
 Lemma table_fm_ok : fm_ok table_fm.
 Proof. intro s. destruct s; vm_compute; reflexivity. Qed.
@@ -139,6 +144,9 @@ Proof. exact (fun m => conj (blocks_are_live_ops table_fm m) (declarations_verba
 Theorem C06_vtk_same : C06_vtk_same_stmt.
 Proof. exact (fun m => vtk_same table_fm m). Qed.
 
+Theorem C06_vertex_lookup : C06_vertex_lookup_stmt.
+Proof. exact (fun vs p sl i H => find_vtx_is_spec vs p sl H i). Qed.
+
 Print Assumptions C06_roundtrip.
 Print Assumptions C06_face_map_is_hex_side_cycle.
 Print Assumptions C06_corner_patches.
@@ -147,3 +155,4 @@ Print Assumptions C06_indices_valid.
 Print Assumptions C06_quads_are_sides.
 Print Assumptions C06_sections_exact_partial.
 Print Assumptions C06_vtk_same.
+Print Assumptions C06_vertex_lookup.
